@@ -13,6 +13,7 @@ import (
 )
 
 func (x *Exec) binop(st *State, op token.Token, a, b Value, opndType types.Type) Value {
+	x.curState = st
 	ta, aok := a.(*Term)
 	tb, bok := b.(*Term)
 	if aok && bok {
@@ -144,6 +145,17 @@ func rangeAxiom(st *State, v *Term, typ types.Type) {
 	}
 }
 
+// pow2: 2^n for symbolic n (Ackermannised; theoryAxioms relates consecutive exponents).
+func (x *Exec) pow2(n *Term) *Term {
+	if i, ok := n.int64(); ok && i >= 0 && i < 62 {
+		return mkInt(1 << uint(i))
+	}
+	if x.curState == nil {
+		fail("symbolic shift outside an execution")
+	}
+	return x.ufApp(x.curState, "pow2", SInt, []*Term{n})
+}
+
 func (x *Exec) bitop(op token.Token, a, b *Term, typ types.Type) *Term {
 	ai, aok := a.int64()
 	bi, bok := b.int64()
@@ -195,7 +207,7 @@ func (x *Exec) bitop(op token.Token, a, b *Term, typ types.Type) *Term {
 			return mkMul(a, mkInt(1<<uint(bi)))
 		}
 		if aok && ai == 1 {
-			return mkApp("pow2", SInt, b)
+			return x.pow2(b)
 		}
 	case token.SHR:
 		if bok && bi >= 0 && bi < 62 {
@@ -329,6 +341,13 @@ func (x *Exec) valuesEqual(a, b Value) *Term {
 	if _, ok := b.(*Opaque); ok {
 		if _, ok2 := a.(*Opaque); !ok2 {
 			return x.valuesEqual(b, a)
+		}
+	}
+	// an unspecified value compared with anything: unknown truth value
+	for _, v := range []Value{a, b} {
+		if op, ok := v.(*Opaque); ok && op.id != nil && (op.tag == "noevent" || op.tag == "unspecified") {
+			x.symArrCtr++
+			return freshVar(fmt.Sprintf("unspeceq%d", x.symArrCtr), SBool)
 		}
 	}
 	fail("unsupported equality between %s and %s", valueString(a), valueString(b))
